@@ -101,6 +101,11 @@ func structCases(c *Ctx) []json.RawMessage {
 					}
 					s.Unk = append(s.Unk, uf)
 				}
+				if rep == 0 { // an id that equals a known id modulo 256 / 65536 sign games, carrying that field's own type
+					types := map[string][]int{"Base": {11, 11, 11, 13}, "BaseResp": {11, 8, 13}, "AppEx": {11, 8}}[schema]
+					j := rng.Intn(len(ids))
+					s.Unk = append(s.Unk, UnkField{Pos: rng.Intn(nk + 1), T: types[j], ID: ids[j] + []int{256, 512, -256, 32768 - 32768%256, -32768}[rng.Intn(5)], Seed: rng.Int63()})
+				}
 				if rng.Intn(6) == 0 { // a known field twice: the last occurrence wins
 					s.Perm = append(append([]int(nil), perm...), perm[rng.Intn(len(perm))])
 				}
